@@ -182,8 +182,15 @@ namespace
     if(g_dir.empty()) return;
     if(DIR* d = ::opendir(g_dir.c_str()))
     {
-      while(dirent* e = ::readdir(d)) { if(e->d_name[0] == '.') continue; ++CNT.files; ::unlink((g_dir + "/" + e->d_name).c_str()); }
+      while(dirent* e = ::readdir(d)) { if(e->d_name[0] == '.' || std::string(e->d_name) == "out.d") continue; ++CNT.files; ::unlink((g_dir + "/" + e->d_name).c_str()); }
       ::closedir(d);
+    }
+    const std::string sub = g_dir + "/out.d";
+    if(DIR* d = ::opendir(sub.c_str()))
+    {
+      while(dirent* e = ::readdir(d)) { if(e->d_name[0] == '.') continue; ++CNT.files; ::unlink((sub + "/" + e->d_name).c_str()); }
+      ::closedir(d);
+      ::rmdir(sub.c_str());
     }
   }
   struct DirGuard { ~DirGuard() { clean_dir(); if(!g_dir.empty()) ::rmdir(g_dir.c_str()); } };
@@ -220,7 +227,11 @@ namespace
   {
     const ModeSpec& ms = MODES[g.idx(3)];
     static const char* names[4] = {"m", "matrix_a", "sys.level3", "A-1"};
-    const std::string file = g_dir + "/" + names[g.idx(4)] + ms.suffix;
+    // every fourth time a file name without an extension in a sub-directory whose name contains a dot: the master file
+    // lists the block files relative to its own directory, and the block names are derived from the master's name
+    const bool bare = g.idx(4) == 0;
+    if(bare) { ::mkdir((g_dir + "/out.d").c_str(), 0700); sim::probe("meta_matrix_file_without_extension_in_dotted_directory"); }
+    const std::string file = bare ? g_dir + "/out.d/" + names[g.idx(4)] : g_dir + "/" + names[g.idx(4)] + ms.suffix;
     std::vector<MRef> refs; std::vector<std::pair<int, int>> where;
     {
       M_ m;
